@@ -3,7 +3,8 @@
 (the *Spec* side of C07–C09; plain `List` functions, readable in minutes).
 -/
 namespace Juniper.Spec.Seq
-variable {α β : Type}
+universe u
+variable {α β : Type u}
 
 /-- Non-overlapping chunks of size `n` (the last one may be shorter); `pend` is the chunk being filled. -/
 def chunkGo (n : Nat) : List α → List α → List (List α)
